@@ -4,6 +4,7 @@ import p_session
 import p_stream
 import p_conc
 import p_timing
+import p_lifecycle
 
 CHECKS = {
     "C01": p_codec.check_C01,
@@ -24,6 +25,7 @@ CHECKS = {
     "C08": p_timing.check_C08,
     "C09": p_timing.check_C09,
     "C04": p_stream.check_C04,
+    "C13": p_lifecycle.check_C13,
 }
 
 
